@@ -238,6 +238,13 @@ def gen_scenario(r, cls: str) -> Dict[str, Any]:
                                 and D(a["amount"]) > 0 and D(a["amount"]) == q(D(a["amount"]), symbols[b]):
                             a["amount"] = _s(D(a["amount"]) + unit(newp) * r.randint(1, 99))
                             a["finer"] = True
+    if lend is not None and cls in ("margin", "cross", "random") and actions and r.random() < 0.2:
+        # the lending conditions of a symbol are replaced half-way through (rate, period, minimum, interest symbol,
+        # requirement): loans already granted keep the conditions they were granted with
+        keys = sorted(actions, key=lambda k: int(k.split("@")[1]))
+        k_ = keys[len(keys) // 2]
+        sym_ = r.choice(sorted(symbols))
+        actions[k_].insert(0, {"op": "set_cond", "symbol": sym_, "cond": _cond(r, symbols, quote, sym_)})
     sc["actions"] = actions
     sc["no_order_events"] = cls in ("random", "margin") and r.random() < 0.12
     # a few actions issued from order-event handlers and scheduled jobs
